@@ -6,9 +6,9 @@ From BigNum Require Import Base BaseLemmas SpecBytes BytesLemmas BitDigits BitDi
 Open Scope Z_scope.
 
 (** ** serialization *)
-Lemma ser_words_abs x : snd (ser_biguint x) = abs (it_new x).
+Lemma ser_words_abs x : snd (ser_biguint x) = abs (it_new iter_std x).
 Proof.
-  unfold ser_biguint, abs, it_new. cbn [it_data it_next_is_lo it_last_hi_is_zero negb drop_first].
+  unfold ser_biguint, abs, it_new. ip_red. cbn [it_data it_next_is_lo it_last_hi_is_zero negb drop_first].
   destruct (snoc_cases x) as [->|(r & t & ->)]; [reflexivity|].
   rewrite last_opt_snoc, removelast_snoc, flat32_snoc. cbn [snd].
   destruct (hi32 t =? 0); cbn [drop_last].
@@ -26,7 +26,7 @@ Qed.
 Theorem ser_biguint_spec x : canon x -> ser_biguint x = spec_ser (val x).
 Proof.
   intros Hx. unfold spec_ser. cbv zeta. change (2 ^ 32) with W32.
-  rewrite <- (abs_new x Hx), <- ser_words_abs, <- ser_len_exact.
+  rewrite <- (abs_new iter_std x eq_refl Hx), <- ser_words_abs, <- ser_len_exact.
   destruct (ser_biguint x); reflexivity.
 Qed.
 
